@@ -389,7 +389,9 @@ def r14_9(ctx):
                         if isinstance(e, ast.Constant) and isinstance(e.value, int) and e.value >= 1:
                             return True
                         return False
-                    if not (isinstance(v, ast.ListComp) and at_least_one(v.elt)):
+                    if not isinstance(v, ast.ListComp):
+                        raise AnalysisError(f"{f.fq}: `{short(ds) if ds is not None else 'a parameter'}` reaches `{short(c)}`; the ratios are not built by a comprehension this rule reads (a list filled in a loop, a helper's result) - the >= 1 clause is not decided")
+                    if not at_least_one(v.elt):
                         ok = False
                         why = f"`{short(ds) if ds is not None else 'parameter'}` reaches the call and does not force every element to be >= 1"
             if ok:
